@@ -6,6 +6,7 @@ KindsAll == {"str", "unicode", "nansub", "int", "neg", "float", "bool", "bigint"
 MetricKindsAll == {"m_int", "m_frac", "m_neg", "m_big", "m_small", "m_tagnan", "m_tagunicode"}
 LevelsAll == {"record", "resource", "scope"}
 UnitsAll == {"s", "s_frac", "ms", "ns", "ns_str", "rfc3339"}
+ShapesAll == {"single", "same_scope", "sibling_scopes", "sibling_resources"}
 StringKinds == {"str", "unicode", "nansub"}
 Acc(p, cls, f) ==
   CASE cls = "kind" ->
@@ -14,6 +15,12 @@ Acc(p, cls, f) ==
          ELSE f \in KindsAll
     [] cls = "level" -> IF p \in {"otlp_logs", "otlp_traces", "otlp_metrics"} THEN f \in LevelsAll ELSE f = "record"
     [] cls = "ids" -> p \in LogP
+    [] cls = "shape" ->
+         CASE f = "single" -> TRUE
+           [] f = "same_scope" -> p \notin {"es_doc", "loki_pb"}     \* one document per request / no per-entry attributes
+           [] f = "sibling_scopes" -> p \in {"otlp_logs", "otlp_traces", "otlp_metrics", "loki_json", "loki_pb"}
+           [] f = "sibling_resources" -> p \in {"otlp_logs", "otlp_traces", "otlp_metrics"}
+           [] OTHER -> FALSE
     [] cls = "time" ->
          CASE p \in {"es_bulk", "es_doc"} -> f \in {"none", "s", "ms", "rfc3339"}
            [] p = "splunk_hec" -> f \in {"none", "s", "s_frac"}
